@@ -15,6 +15,19 @@ PROPS = {
         "assumptions": COMMON_ASSUME,
         "must_hit": {"quick": ["connect-during-reload", "request-overlapped-reload"], "thorough": ["connect-during-reload", "request-overlapped-reload", "handler-parked-during-reload"]},
     },
+    "C08": {
+        "level": "fault_enumeration",
+        "per_process": True,
+        "directed": 168,
+        "det": {"quick": 0, "thorough": 0},
+        "watchdog": 90,
+        "budget": {"quick": 25, "thorough": 420},
+        "rule": "one evaluation = one history in a fresh OS process: optionally a running instance, then 1-5 load attempts (Start through the loaders / validate / Instance.Restart / SIGUSR1 reload) each with a valid configuration or one of 28 failure kinds (syntax, unknown directive, bad arguments of 17 directives, missing or malformed files, port in use on a second listen address, failing startup / restart callbacks), then a valid configuration. Seeds 0-167 enumerate (running or not) x (3 ways of loading) x (28 failure kinds) exhaustively; the remaining seeds sample longer sequences. distinct = distinct history descriptor; non-trivial = at least one failed attempt",
+        "nontrivial_steps": 1,
+        "real_vs_stub": "real: everything (casket core, httpserver, all directive setups, kernel sockets via loopback, /proc socket table, files in a per-process temp dir, signal handler with simulated signal source); stub: operator, clients (net/http client over loopback), the simcb callback directive used for failing startup/restart callbacks",
+        "assumptions": COMMON_ASSUME[:1] + ["no schedule is explored: operations of a history are sequential; hangs are detected by a 20 s real-time watchdog per operation", "listening sockets are read from /proc/self/net/tcp{,6} joined with /proc/self/fd"],
+        "must_hit": {"quick": ["failed-attempt:missing:htpasswd", "failed-attempt:port-in-use", "failed-attempt:restart-callback"], "thorough": ["failed-attempt:missing:htpasswd", "failed-attempt:port-in-use", "failed-attempt:restart-callback"]},
+    },
     "C16": {
         "level": "exploration",
         "budget": {"quick": 30, "thorough": 400},
@@ -34,6 +47,12 @@ MANIFEST_TEXT = {
         "design_ref": "DESIGN.md 6 C07",
         "note": "TCP data path is simnet (accept queue shared by dup'ed descriptors, queued connections reset when the last descriptor closes); one known finding (net/http drops a connection whose request head completes after Shutdown began) is listed in known_findings.jsonl",
         "technique": DST + "; oracle: regular register over config versions + socket-table invariants",
+    },
+    "C08": {
+        "text": "systematic enumeration of (failure kind x loading path x running-or-not), plus seeded sampling of longer histories of failed attempts followed by a valid load, each in a fresh process against the real casket; after every failed attempt the process's listening sockets (kernel truth), the running sites' responses, the event-hook registry and the instance list must equal their values before; the final valid load must return in bounded time and answer its battery exactly as the configuration specifies.",
+        "design_ref": "DESIGN.md 6 C08",
+        "note": "sequential histories only (no interleaving is claimed); hang = operation exceeding a 20 s real-time watchdog with a goroutine blocked inside tmpim/casket",
+        "technique": DST + " restricted to fault sequences: seeded + enumerated histories of failing loads, residue oracle on kernel socket table / hook registry / responses",
     },
     "C16": {
         "text": "seeded search over lifecycle histories (start, reloads succeeding or failing at each stage through the API and through SIGUSR1, stops, repeated and concurrent shutdown signals) against the real casket core with a fake server type; the recorded callback/listen/serve/stop trace is checked against an executable reference automaton written from the statement (exactly-once counts, order on successful reload, restart-failed-and-nothing-else on failed reload, final-shutdown only at process shutdown, Wait returns only after the lineage stopped).",
